@@ -51,7 +51,7 @@ struct E7 : Engine {
 			else if(x < 68){ o["op"] = "remove"; o["sid"] = (int)r.below(2); }
 			else if(x < 78){ o["op"] = "gc"; }
 			else if(x < 90){ o["op"] = "tick"; o["s"] = 1 + (int)r.below(12); }
-			else { o["op"] = "garbage"; o["sid"] = 2 + (int)r.below(2); o["kind"] = (int)r.below(6); }
+			else { o["op"] = "garbage"; o["sid"] = 2 + (int)r.below(2); o["kind"] = (int)r.below(8); }
 			ops.push(o); }
 		p["ops"] = ops;
 		J c = J::obj(); c["sid"] = (int)r.below(2); c["len"] = pick_len(); c["dl"] = 1 + (int)r.below(20); c["fill"] = (int)r.below(6);
@@ -182,11 +182,13 @@ struct E7 : Engine {
 				else if(op == "tick"){ simk::advance_us(std::max<int64_t>(0,std::min<int64_t>(o.geti("s"),100000))*1000000); c.cnt["tick"]++; }
 				else if(op == "garbage"){ std::string g; int k = (int)o.geti("kind");
 					int64_t future = c.now() + 1000; uint32_t crc = 0x12345678, size = 10;
-					switch(((k%6)+6)%6){ case 0: break; case 1: g = std::string("\x01\x02\x03\x04\x05",5); break;
+					switch(((k%8)+8)%8){ case 0: break; case 1: g = std::string("\x01\x02\x03\x04\x05",5); break;
 					case 2: g.assign((char*)&future,8); g.append((char*)&crc,4); g.append((char*)&size,4); break;                               // header only, data missing
 					case 3: size = 0x100000u; g.assign((char*)&future,8); g.append((char*)&crc,4); g.append((char*)&size,4); g += "xx"; break;   // size far beyond the file (1 MiB; 4 GiB would make load() zero-fill 4 GiB of memory first - noted in DESIGN.md)
 					case 4: g.assign((char*)&future,8); g.append((char*)&crc,4); g.append((char*)&size,4); g += "short"; break;                   // short data
-					default: g.assign((char*)&future,8); g.append((char*)&crc,4); g.append((char*)&size,4); g += "0123456789"; break; }          // wrong crc
+					case 5: g.assign((char*)&future,8); g.append((char*)&crc,4); g.append((char*)&size,4); g += "0123456789"; break;             // wrong crc
+					case 6: size = 0; g.assign((char*)&future,8); g.append((char*)&crc,4); g.append((char*)&size,4); break;                          // length field 0 but a checksum that is not the one of the empty string (a record whose length field was wiped)
+					default: size = 0; g.assign((char*)&future,8); g.append((char*)&crc,4); g.append((char*)&size,4); g += "tail of an earlier, longer record"; break; }
 					simk::fs_put(path_of(sid),g); SidModel &gm = c.model[sid]; gm.garbage = true; gm.garbage_gc_must_remove = g.size() < 8; gm.present = false; c.cnt["garbage"]++; }
 			}
 			// a file with a well-formed name that holds garbage is "unreadable": load reports no session and removes it
